@@ -34,6 +34,7 @@ var (
 	vmDSStrict   = false // the server rejects offsets it did not issue (the library's own server parses a leading number and ignores the rest)
 	vmDSFailAppend = -1  // index of the Append request the server answers with 503 (-1: none)
 	vmDSAppends    = 0
+	vmDSForeign    = false // another writer appends one message to the stream right before the rejected append arrives
 	vmDSLostAck    = -1 // index of the Append request the server carries out but answers with 502 (a gateway losing the acknowledgement)
 )
 
@@ -76,6 +77,9 @@ func (t *vmDSTransport) Append(ctx context.Context, req transport.AppendRequest)
 	i := vmDSAppends
 	vmDSAppends++
 	if i == vmDSFailAppend {
+		if vmDSForeign {
+			s.msgs = append(s.msgs, json.RawMessage(`{"type":"foreign","data":{"n":0}}`))
+		}
 		return nil, &transport.Error{Code: "UNAVAILABLE", Message: "service unavailable", StatusCode: 503}
 	}
 	s.msgs = append(s.msgs, json.RawMessage(req.Data))
